@@ -518,6 +518,9 @@ def judge_c07(d):
 
 def judge_c16(d):
     q, impl, model = d["query"], d["impl"], d["model"]
+    if q.startswith("c07 "):
+        # the SOCKS5 multiplexer histories (outbound_udp_sockets = associations) are judged as in C07
+        return judge_c07(d)
     if q.startswith("c16 families"):
         return "the series exported by Metrics::collect are [%s]; METRICS.md documents [%s]" % (impl, model)
     ops = q.split("ops=")[1].split(";")
@@ -977,7 +980,7 @@ PROPS = {
     ),
     "C16": dict(
         retry_on_failure=True,
-        suites=["c16", "c16h3"],
+        suites=["c16", "c16h3", "c07socks"],
         judge=judge_c16,
         level="proof",
         rule="17 directed and 120 (thorough 1200) random histories of 4-16 events {open an HTTP/1.1 or HTTP/2 session, client drops a "
@@ -998,7 +1001,9 @@ PROPS = {
              "(Proto.h3: multiplexed like HTTP/2, own cells, and a vanished client's open tunnels are torn down at once); between "
              "histories all gauges must return to zero within 3 s; /health-check must answer 200; two clients vanish silently with a tunnel "
              "open (QUIC idle timeout 2 s from the client's transport parameters; once the origin sends 1000 bytes a second later): the "
-             "gauges must be back at zero within 7 s",
+             "gauges must be back at zero within 7 s."
+             " The SOCKS5 forwarder's multiplexer histories of C07 (suite c07socks: outbound_udp_sockets = one per association, "
+             "released with the association's last flow) are run here too",
         explanation="theorems cells_equal_objects, gauges_nonneg, all_clients_gone_sessions_udp_zero, all_clients_gone_everything_zero, "
                     "refused_connect_balanced, hanging_connect_released_by_timeout, counters_monotone, up_adds_exactly, "
                     "down_adds_exactly, no_relay_no_bytes, half_closed_tunnel_released_when_both_ended, icmp_counts_only_relayed, udp_bytes_follow_multiplexer, documented_series, documented_paths about "
@@ -1012,7 +1017,7 @@ PROPS = {
                  "no guard in the code and are not driven here",
                  "HTTP/3 histories run on the wall clock: 'quiescent' is read as 'two equal scrapes 40 ms apart, at most 2 s after the "
                  "operation', and they contain no clock advances (timeouts of HTTP/3 tunnels are not exercised); the SOCKS5 forwarder's TCP path is not driven "
-                 "(its UDP multiplexer is, by C07's SOCKS5 suite); ICMP traffic only where raw sockets are permitted",
+                 "(its UDP multiplexer is, by the SOCKS5 suite shared with C07); ICMP traffic only where raw sockets are permitted",
                  "prometheus crate text encoding; Linux loopback TCP (origin sockets use TCP_NODELAY) and a full accept queue to make a "
                  "connect hang"],
         assumptions=["an origin connection whose client vanished lingers until the endpoint next writes to the client or the tunnel "
